@@ -30,6 +30,20 @@ pub(crate) fn decompress(data: &[u8], expected_size: usize) -> Result<Vec<u8>> {
     Ok(decompressed)
 }
 
+/// Decompress a BZip2 stream that is an intermediate stage of a multi-compression chain: the
+/// size of its output is recorded nowhere (the block table holds the size after the last
+/// stage), so `size_hint` only pre-sizes the buffer.
+pub(crate) fn decompress_stage(data: &[u8], size_hint: usize) -> Result<Vec<u8>> {
+    let mut decoder = BzDecoder::new(data);
+    let mut decompressed = Vec::with_capacity(size_hint);
+
+    decoder
+        .read_to_end(&mut decompressed)
+        .map_err(|e| decompression_error("BZip2", e))?;
+
+    Ok(decompressed)
+}
+
 /// Compress using BZip2
 pub(crate) fn compress(data: &[u8]) -> Result<Vec<u8>> {
     let mut encoder = BzEncoder::new(Vec::new(), Compression::default());
